@@ -24,9 +24,11 @@ import os
 
 
 def mypid():
-    """the pid of the process running the check (constant during one symbolic run; a fork between constructing the lock
-    and using it is outside this model -- the bounded part's seeded change C50-1 lives there)"""
-    return os.getpid()
+    """the pid of the process that *uses* the lock during a symbolic run.  It is deliberately not the pid of the process
+    that built the FilesystemLock object (setup builds it natively, under the real os.getpid()): the object may have been
+    constructed before a fork, so nothing remembered at construction time may stand in for getpid() (seeded change
+    C50-1 caches the pid in __init__)."""
+    return os.getpid() + 1000003
 
 
 PIDSTR = "<pid read from the link>"
@@ -185,6 +187,8 @@ class Unlock(Contract):
 
 
 CONTRACTS = [Lock, Unlock]
+for _k in CONTRACTS:
+    _k.replay_decides = False  # the outcomes of symlink / readlink / kill / rmlink are an arbitrary environment, not inputs
 BOUNDED = bounded("C50")
 _SCOPE = ("the real FilesystemLock.lock / unlock for 2-4 simulated processes with symlink / readlink / rmlink / kill / getpid intercepted, each call-out one atomic step on a ghost world (one link, live pids) holding only the POSIX rules: every interleaving (breadth-first with memoisation) of all script pairs / triples over lock, unlock, die in free / stale / held worlds, and every complete schedule of 2 processes; oracle: at most one live holder, a holder's unlock succeeds and removes its link, a free or stale lock is acquirable by a process running alone, calls terminate")
 NOTES = dict(explanation="lock / unlock proved against an arbitrary environment (per-call guarantees); interleavings bounded: " + _SCOPE,
@@ -196,7 +200,10 @@ MANIFEST = dict(
          "fail with any errno, other processes may act between calls): lock() returns True only immediately after its own "
          "symlink(str(pid), name) succeeded and sets locked; it removes the link only after, in the same retry, reading an "
          "owner pid and kill(pid, 0) reporting ESRCH; it returns False only after the recorded owner was found alive; "
-         "unlock() removes the link only when it names this process, otherwise ValueError and nothing is touched.  Mutual "
+         "unlock() removes the link only when it names this process, otherwise ValueError and nothing is touched.  \"This "
+         "process\" is the one that makes the call, which need not be the one that built the object (the contracts run "
+         "the calls under a pid other than the constructing one: nothing remembered before a fork may stand in for "
+         "getpid()).  Mutual "
          "exclusion across processes depends on the interleaving of these steps and is exercised in the bounded tier only "
          "(where the stale-break race is the known finding): " + _SCOPE + ".",
     note="Trusted: pyvc, SMT solvers, the environment model of symlink / readlink / kill / rmlink (any outcome), int() contract, "
